@@ -82,6 +82,28 @@ Theorem C10_memcached_fuel_suffices : forall d n,
   (length (d_payload d) < n)%nat -> mc_loop n (skipn 8 (d_payload d)) = mc_script d.
 Proof. exact mc_script_fuel. Qed.
 
+(* ---- concurrency: the server handles every datagram in its own goroutine ---- *)
+
+(* ALL interleavings: Limiter.Allow = atomic LoadOrStore, then Allow() on the bucket it
+   returned.  For any number of goroutines, any assignment of source addresses to them
+   and any schedule of these steps (clock nondecreasing along the schedule), every
+   source is granted at most 4 times in any window [a, a + 10 min) *)
+Theorem C10_every_interleaving_bound : forall keys acts k a,
+  nondecr (map atime acts) -> cgrants k a I_NS (crun keys cs0 acts) <= 4.
+Proof. exact concurrent_bound. Qed.
+
+Theorem C10_every_interleaving_rate : forall keys acts k a w,
+  1 <= w -> nondecr (map atime acts) ->
+  cgrants k a w (crun keys cs0 acts) * I_NS <= BURST * I_NS + (w - 1).
+Proof. exact concurrent_rate. Qed.
+
+(* the atomicity of LoadOrStore is what this rests on: with Load, then NewLimiter + Store
+   on a miss, six goroutines of one fresh source that all miss are all granted *)
+Theorem C10_lookup_then_store_refuted : exists keys acts k,
+  nondecr (map (fun a => match a with RLoad _ => 0 | RStore _ t => t | RTake _ t => t end) acts) /\
+  cgrants k 0 I_NS (rrun keys cs0 acts) = 6.
+Proof. exact racy_witness. Qed.
+
 (* ---- non-vacuity ---- *)
 (* seven read requests from one address, seven different ports: the 4th is answered, the
    5th is not, nor is the one sent 1 ns before the refill; the one at the refill is *)
@@ -105,6 +127,12 @@ Example C10_two_sources :
   proj a (trace CStrike h) = trace CStrike [q a 0; q a 2; q a 4; q a 6; q a 8].
 Proof. cbv zeta. repeat split; vm_compute; reflexivity. Qed.
 
+(* six goroutines of one fresh source, all LoadOrStore first, then all Allow(): four grants *)
+Example C10_six_goroutines_four_grants :
+  let acts := map (fun th => ALoad th 0) (seq 0 6) ++ map (fun th => ATake th 1) (seq 0 6) in
+  nondecr (map atime acts) /\ cgrants [9]%N 0 I_NS (crun (fun _ => [9]%N) cs0 acts) = 4.
+Proof. cbv zeta. split; [vm_compute; repeat split; intro H; discriminate H|vm_compute; reflexivity]. Qed.
+
 (* six commands in one memcached datagram: four answers *)
 Example C10_memcached_multi :
   let stats := [115; 116; 97; 116; 115; 13; 10]%N in
@@ -124,3 +152,6 @@ Print Assumptions C10_amplification_rate.
 Print Assumptions C10_others_unaffected.
 Print Assumptions C10_ports_irrelevant.
 Print Assumptions C10_memcached_fuel_suffices.
+Print Assumptions C10_every_interleaving_bound.
+Print Assumptions C10_every_interleaving_rate.
+Print Assumptions C10_lookup_then_store_refuted.
